@@ -789,6 +789,32 @@ def run_seg(case, ctx):
         w.update(case_w2)
         return violated(w, sig, nt, cls)
     cls.append("history_second_call_same_track")
+    if case["cost"] == "chord" and n <= 40:
+        # two tracks used in turn: ANOTHER track with the same number of fixes (same default identifiers), the same
+        # cost function object and parameter -- the costs handed to optimalPartition must be THAT track's
+        pts_b = [[p[0] * 0.5 + 3.0 * ((i * 7) % 5), p[1] * 1.5 - 2.0 * ((i * 3) % 4)] for i, p in enumerate(pts)]
+        tr_b = gen.make_track(pts_b)
+        del REC[:]
+        r3 = M.call(fn, tr_b, cost, g, want, False)
+        case_w3 = dict(case_w, history="the same delegate, cost function and parameter on ANOTHER track of the same size")
+        v, rec3, _nt3, _c3 = _delegate_common(ctx, r3, name + " (another track)", want, sig, cls, case_w3)
+        if v is not None:
+            return v if v["v"] == "violated" else held(sig, nt, cls)
+        ctx.monitor("delegate.other_track_gets_its_own_costs")
+        m3 = rec3["matrix"]
+        N3 = m3.shape[0] - 1
+        ok = False
+        for delta in (-1, 0, 1):
+            if all(float(m3[a, b]) == float(cost(tr_b, a, b + delta, g) if g is not None else cost(tr_b, a, b + delta))
+                   for a in range(N3) for b in range(a + 1, N3) if 0 <= b + delta < n):
+                ok = True
+                break
+        if not ok:
+            w = {"what": "the segment costs handed to optimalPartition for a second track (same size, same cost function) "
+                         "are not that track's costs", "second_track": pts_b, "recorded_call": _rec_witness(rec3)}
+            w.update(case_w3)
+            return violated(w, sig, nt, cls)
+        cls.append("history_another_track_same_size")
     return held(sig, nt, cls)
 
 
